@@ -12,6 +12,12 @@ use std::sync::OnceLock;
 use vf_common::{Ctx, Outcome, Report};
 
 pub const PSK: &str = "s3cr3t-PSK value";
+/// a pre-shared key with octets >= 0x80 (legal in a header value, opaque to the comparison)
+pub const PSK_NON_ASCII: &str = "cl\u{e9}-\u{5bc6}\u{94a5}-\u{fc} key";
+
+pub fn psk_of(cfg: Cfg) -> &'static str {
+    if cfg.psk == 2 { PSK_NON_ASCII } else { PSK }
+}
 pub const NOT_FOUND_BODY: &str = "custom 404 body";
 pub const KEY: &str = "dGhlIHNhbXBsZSBub25jZQ==";
 
@@ -44,9 +50,10 @@ fn case_changed(s: &str) -> String {
 }
 
 /// values sent for header `h` under variant `v`
-pub fn values(h: usize, v: HV) -> Vec<String> {
-    let ok = HVALID[h].to_string();
-    let bad = format!("{}x", HVALID[h]);
+pub fn values(h: usize, v: HV, cfg: Cfg) -> Vec<String> {
+    let valid = if h == 5 { psk_of(cfg) } else { HVALID[h] };
+    let ok = valid.to_string();
+    let bad = format!("{valid}x");
     match v {
         HV::Absent => vec![],
         HV::Exact => vec![ok],
@@ -65,7 +72,8 @@ pub fn values(h: usize, v: HV) -> Vec<String> {
 
 #[derive(Clone, Copy, Debug, Hash, PartialEq, Eq, Serialize, Deserialize)]
 pub struct Cfg {
-    pub psk: bool,
+    /// 0 = no pre-shared key configured, 1 = an ASCII key, 2 = a key with octets >= 0x80
+    pub psk: u8,
     pub obfs: bool,
     pub backend: bool,
 }
@@ -92,7 +100,7 @@ fn value_ok(h: usize, val: &str, cfg: Cfg) -> bool {
     match h {
         0..=3 => val.eq_ignore_ascii_case(HVALID[h]),
         4 => true, // any key that is present
-        5 => !cfg.psk || val == PSK,
+        5 => cfg.psk == 0 || val == psk_of(cfg),
         _ => unreachable!(),
     }
 }
@@ -104,8 +112,8 @@ pub fn should_upgrade(c: &ReqCase) -> Want {
     }
     let mut either = false;
     for h in 0..6 {
-        let vals = values(h, c.headers[h]);
-        if h == 5 && !c.cfg.psk {
+        let vals = values(h, c.headers[h], c.cfg);
+        if h == 5 && c.cfg.psk == 0 {
             continue; // ignored when no PSK is configured
         }
         if vals.is_empty() {
@@ -130,8 +138,8 @@ pub fn build_request(c: &ReqCase, path_override: Option<&str>) -> Request<Empty<
         b = b.header("x-unrelated", "1");
     }
     for h in 0..6 {
-        for v in values(h, c.headers[h]) {
-            b = b.header(HeaderName::from_static(HNAMES[h]), HeaderValue::from_str(&v).unwrap());
+        for v in values(h, c.headers[h], c.cfg) {
+            b = b.header(HeaderName::from_static(HNAMES[h]), HeaderValue::from_bytes(v.as_bytes()).unwrap());
         }
     }
     let mut req = b.body(Empty::<Bytes>::new()).unwrap();
@@ -200,13 +208,14 @@ pub fn fixture() -> &'static Fixture {
         let states = rt.block_on(async {
             let addr = backend_server().await;
             let backend: &'static BackendUrl = Box::leak(Box::new(BackendUrl::from_str(&format!("http://{addr}/")).expect("backend url")));
-            let psk: &'static HeaderValue = Box::leak(Box::new(HeaderValue::from_static(PSK)));
+            let psk1: &'static HeaderValue = Box::leak(Box::new(HeaderValue::from_static(PSK)));
+            let psk2: &'static HeaderValue = Box::leak(Box::new(HeaderValue::from_bytes(PSK_NON_ASCII.as_bytes()).expect("non-ASCII header value")));
             let base = State::new().await.expect("State::new");
             let mut v = vec![];
-            for p in [false, true] {
+            for p in [0u8, 1, 2] {
                 for o in [false, true] {
                     for b in [false, true] {
-                        let mut s = base.clone().with_ws_psk(if p { Some(psk) } else { None }).obfs(o).with_not_found_resp(NOT_FOUND_BODY).with_backend(if b { Some(backend) } else { None });
+                        let mut s = base.clone().with_ws_psk(match p { 0 => None, 1 => Some(psk1), _ => Some(psk2) }).obfs(o).with_not_found_resp(NOT_FOUND_BODY).with_backend(if b { Some(backend) } else { None });
                         if !b {
                             s = s.with_backend_http2_support(false);
                         }
@@ -260,7 +269,7 @@ pub fn check(c: &ReqCase) -> Outcome {
     }
     let check_101 = |r: &Resp| -> Result<(), String> {
         let get = |n: &str| r.headers.iter().find(|h| h.0 == n).map(|h| String::from_utf8_lossy(&h.1).to_string());
-        let key = values(4, c.headers[4]).first().cloned().unwrap_or_default();
+        let key = values(4, c.headers[4], c.cfg).first().cloned().unwrap_or_default();
         let accept = vf_ref::ws::accept_hash(key.as_bytes());
         if !get("connection").is_some_and(|v| v.eq_ignore_ascii_case("upgrade")) || !get("upgrade").is_some_and(|v| v.eq_ignore_ascii_case("websocket")) {
             return Err(format!("101 without connection/upgrade headers: {:?}", r.headers));
@@ -312,7 +321,7 @@ pub fn check(c: &ReqCase) -> Outcome {
         dev += 1;
     }
     for h in 0..6 {
-        if c.headers[h] != HV::Exact && !(h == 5 && !c.cfg.psk && c.headers[h] == HV::Absent) {
+        if c.headers[h] != HV::Exact && !(h == 5 && c.cfg.psk == 0 && c.headers[h] == HV::Absent) {
             dev += 1;
         }
     }
@@ -326,7 +335,7 @@ fn hdrs(r: &Resp) -> Vec<String> {
 
 fn cfgs() -> Vec<Cfg> {
     let mut v = vec![];
-    for psk in [false, true] {
+    for psk in [0u8, 1, 2] {
         for obfs in [false, true] {
             for backend in [false, true] {
                 v.push(Cfg { psk, obfs, backend });
@@ -363,7 +372,7 @@ fn apply(c: &mut ReqCase, p: (u8, u8, u8)) {
 
 pub fn run(ctx: &Ctx, rep: &mut Report) {
     rep.rule = "requests = method {GET,POST,HEAD,PUT,OPTIONS} x path {/ws,/ws?x=1,/ws/,/WS,/wsx,/,/health,/version,/x} x for each of Connection, Upgrade, Sec-WebSocket-Version, Sec-WebSocket-Protocol, Sec-WebSocket-Key, X-Penguin-PSK a variant in {exact, absent, case-changed, prefix, suffix, padded, token list, empty, duplicate valid+valid / valid+invalid / invalid+valid, other} \
-                x server configuration {PSK or not} x {obfs on/off} x {static 404 body, local deterministic backend}. ALL requests deviating from a valid upgrade in <= 2 places are enumerated under all 8 configurations, random requests beyond. \
+                x server configuration {no PSK, an ASCII PSK, a PSK with octets >= 0x80} x {obfs on/off} x {static 404 body, local deterministic backend}. ALL requests deviating from a valid upgrade in <= 2 places are enumerated under all 12 configurations, random requests beyond. \
                 Oracle: reference predicate from the statement; 101 must carry the protocol and the RFC 6455 accept hash (own SHA-1/base64); every other response must equal (status, headers, body) the response to the same request on an unknown path; /health and /version equal it when obfs is on. \
                 Non-trivial = a request to /ws deviating from a valid upgrade in at most two places (incl. the valid one). Distinct = distinct case value."
         .into();
@@ -409,7 +418,7 @@ pub fn run(ctx: &Ctx, rep: &mut Report) {
         || {
             let hv = || prop::sample::select(HVS.to_vec());
             let hvb = move || prop_oneof![3 => Just(HV::Exact), 1 => Just(HV::CaseChanged), 2 => hv()];
-            (any::<bool>(), any::<bool>(), any::<bool>(), prop_oneof![4 => Just(0u8), 1 => 0u8..5], prop_oneof![5 => Just(0u8), 1 => Just(1u8), 2 => 0u8..9], [hvb(), hvb(), hvb(), hvb(), hvb(), hvb()], any::<bool>())
+            (0u8..3, any::<bool>(), any::<bool>(), prop_oneof![4 => Just(0u8), 1 => 0u8..5], prop_oneof![5 => Just(0u8), 1 => Just(1u8), 2 => 0u8..9], [hvb(), hvb(), hvb(), hvb(), hvb(), hvb()], any::<bool>())
                 .prop_map(|(psk, obfs, backend, method, path, headers, extra)| ReqCase { cfg: Cfg { psk, obfs, backend }, method, path, headers, extra })
         },
         check,
